@@ -19,6 +19,7 @@ CONSTANTS MaxM, MaxU, MaxN, MaxV,   \* length bounds when one field varies (meth
           H2Len,                    \* length bound for the HTTP/2 header fields
           MaxD,                     \* length bound for URL material over the path-structure alphabet (dot segments)
           ShardK, ShardS,           \* emission sharding: this run explores share ShardS of ShardK
+          PairMaxLen,               \* (refused, accepted) pairs are replayed for refused requests whose varying fields have at most this length
           EmitOn                    \* TRUE: print every explored request with its expectation
 
 VARIABLES req, vary
@@ -90,6 +91,26 @@ InvAllOnRequest == (Mine /\ ~IsH2) => FirstFailing(req) = "none"
 InvH1UnsafeIsH2Refused == Mine => \A i \in 1..Len(req.hdrs) : req.hdrs[i].skip \/ H1UnsafeIsH2Refused(req.hdrs[i])
 InvExpectTotal == Mine => /\ Expect(req.level, req) \in {"MustRefuse", "MustBeExactlyThis", "Either"}
                           /\ (Len(req.hdrs) > 0 => H2Expect(req.hdrs[1]) \in {"MustRefuse", "MustBeExactlyThis", "Either"})
+
+\* ---- two calls on one client object (Wire.tla section 9): the explored request, when it must be refused, is call 1;
+\* call 2 is a fixed clean request through the same entry point
+Second(l) == [level |-> l, method |-> <<"G","E","T">>, slash |-> TRUE, url |-> <<"p","u","b">>,
+              hdrs |-> <<Hdr(<<"X","-","k">>, <<"1">>)>>, body |-> NoBody, chunked |-> FALSE]
+IsFirstCall == Mine /\ ~IsH2 /\ MustRefuse(req.level, req)
+InvSecondCallUntouched == IsFirstCall => SecondCallUntouched(req, Second(req.level))
+InvKeptHeadIsCaught == IsFirstCall => KeptHeadIsCaught(req, Second(req.level))
+InvResidueShape == (Mine /\ ~IsH2) => ResidueShape(req)
+\* the pairs that are replayed: every refused seed request and every refused request whose varying fields are short
+RECURSIVE VaryLen(_)
+VaryLen(fs) == IF fs = {} THEN 0 ELSE LET f == CHOOSE x \in fs : TRUE IN Len(Field(req, f)) + VaryLen(fs \ {f})
+IsPair == IsFirstCall /\ VaryLen(vary) <= PairMaxLen
+EmitPairs == (EmitOn /\ IsPair) =>
+    PrintT(<<"PR", ToJson([req |-> req, second |-> Second(req.level),
+                           \* a head is certainly pending when nothing but a header stops the request (a method or target of the
+                           \* latitude class may be refused first, before anything is buffered)
+                           kept |-> /\ Residue(req.level, req) # <<>> /\ req.method # <<>> /\ AllIn(req.method, TChar)
+                                    /\ AllIn(req.url, Printable),
+                           wire2 |-> SecondCallWire({}, req.level, req, Second(req.level))])>>)
 
 \* emission: one line per explored request (invariants are evaluated once per distinct state)
 Expectation == IF IsH2 THEN H2Expect(req.hdrs[1]) ELSE Expect(req.level, req)
